@@ -514,7 +514,7 @@ pub fn property() -> Property {
         rule: "cases: one real station TS=5 (HSA 8, two-station ring with partner 6) against a scripted environment; ALL sequences of depth 3 (quick) / 4-5 (thorough) over a 17-symbol alphabet (tokens P->TS, X->TS, Y->TS, P->X, X->P, 200->TS, TS->P, 126->TS, 126->P, TS->TS; status request from P / X; status reply; SC; silence of Tslot/2, 1.5 Tslot, token-lost time-out) from two start states (listening; in-ring idle), random sequences up to length 40, and the supervision scenarios (successor silent / heard after the 1st, 2nd, 3rd pass, three kinds of heard telegram and three kinds of undecodable activity - noise, bad checksum, bad length repetition -, eight delays). History invariants with PS/NS read from inspect_token_ring() immediately before each offer: token from the registered predecessor is accepted, a first offer by a stranger is not, an immediately repeated offer is; a listening station never uses a token and initiates only its claim; nothing is initiated without the token; status requests to TS are answered exactly once; after the own pass: silence => identical token again after > Tslot, three in total, then the successor leaves the LAS and the token goes to the next station; heard => no repetition, successor kept; the same after a message cycle that ended in a time-out with the remains of a broken reply (timeout_then_pass), and a repeated offer found together with the first by one late poll is accepted (late_poll). Non-trivial = sequence contains a token offer to TS or starts in the ring; distinct by sequence.",
         assumptions: vec![
             "formulated over observable ownership episodes (DESIGN 6, C11 i-v): an offer arriving while TS supervises its own pass counts as a first offer; the remembered stranger is forgotten when TS acted as owner; only one stranger is remembered; a station that saw its own address twice is Offline and has no obligations; 'heard' = a complete valid telegram polled before the slot expires",
-            "the environment transmits only after 40 bit times of idle bus and the station is polled every 5 us",
+            "the environment transmits only after 40 bit times of idle bus and the station is polled every 5 us (late_poll: one poll gap of a little more than a slot time; the telegrams found by one poll are taken in the order of their arrival, so the second of two offers found together is an offer 'a second time')",
         ],
         subchecks: vec![
             SubCheck::index("seq3", "all sequences of depth 3 from two start states", |i, obs| exhaustive(i, 3, obs)),
